@@ -27,6 +27,9 @@ def main():
     meta = json.load(open(os.path.join(out, "meta.json")))
     pid = meta["property"]
     checks = checks or [pid]
+    # the demonstrations of the IO-layer seeds import the environment shim from /tmp/compat_shim (see DESIGN 1)
+    os.makedirs("/tmp/compat_shim", exist_ok=True)
+    shutil.copy(os.path.join(os.path.dirname(os.path.dirname(os.path.abspath(__file__))), "harness", "compat.py"), "/tmp/compat_shim/bcompat.py")
     tmp = tempfile.mkdtemp(prefix="bcseed.", dir="/tmp")
     res = {"seed_id": sid, "property": pid, "agent_meta": meta}
     try:
